@@ -67,7 +67,38 @@ fn vars(k: &Kind) -> Vec<(String, usize)> {
 }
 
 /// the consistency suite: what "a graph that satisfies every consistency guarantee of its type under further use" means here
-fn consistent<Ty: EdgeType>(g0: &StableGraph<u8, u8, Ty, u8>, bad: &mut Vec<String>) {
+/// `consistent_inner` on a helper thread with a deadline: a corrupted free list can make the code under test loop for
+/// ever (a self-linked vacancy list), which must be reported and not suffered. After the first such case the helper
+/// thread is left spinning (it cannot be cancelled) and later calls are answered without running.
+fn consistent<Ty: EdgeType + Send + 'static>(g0: &StableGraph<u8, u8, Ty, u8>, bad: &mut Vec<String>) {
+    use std::sync::atomic::{AtomicBool, Ordering};
+    static HUNG: AtomicBool = AtomicBool::new(false);
+    if HUNG.load(Ordering::SeqCst) {
+        bad.push("(not run: an earlier graph made the consistency suite loop for ever)".into());
+        return;
+    }
+    let g = g0.clone();
+    let (tx, rx) = std::sync::mpsc::channel();
+    std::thread::spawn(move || {
+        let r = std::panic::catch_unwind(std::panic::AssertUnwindSafe(|| {
+            let mut b = vec![];
+            consistent_inner(&g, &mut b);
+            std::mem::forget(g);
+            b
+        }));
+        let _ = tx.send(r.map_err(|p| symx::engine::payload_msg(&p)));
+    });
+    match rx.recv_timeout(std::time::Duration::from_secs(10)) {
+        Ok(Ok(b)) => bad.extend(b),
+        Ok(Err(msg)) => bad.push(format!("using the loaded graph panicked: {}", msg)),
+        Err(_) => {
+            HUNG.store(true, Ordering::SeqCst);
+            bad.push("using the loaded graph (retain_nodes / add_node / add_edge / remove_node) did not terminate within 10 s".into());
+        }
+    }
+}
+
+fn consistent_inner<Ty: EdgeType>(g0: &StableGraph<u8, u8, Ty, u8>, bad: &mut Vec<String>) {
     let nodes: Vec<usize> = g0.node_indices().map(|x| x.index()).collect();
     if nodes.len() != g0.node_count() {
         bad.push(format!("node_indices {:?} vs node_count {}", nodes, g0.node_count()));
@@ -118,7 +149,7 @@ fn consistent<Ty: EdgeType>(g0: &StableGraph<u8, u8, Ty, u8>, bad: &mut Vec<Stri
     }
 }
 
-fn doc_stable<Ty: EdgeType>(nn: usize, ch: &mut dyn Pick) -> Vec<String> {
+fn doc_stable<Ty: EdgeType + Send + 'static>(nn: usize, ch: &mut dyn Pick) -> Vec<String> {
     let mut bad = vec![];
     let h: Vec<usize> = ["h0", "h1"].iter().map(|n| ch.pick(n, 5)).filter(|&v| v < 5).collect(); // value 5 = entry absent
     let prop_ok = ch.pick("prop", 1) == 0;
@@ -187,7 +218,7 @@ fn doc_stable<Ty: EdgeType>(nn: usize, ch: &mut dyn Pick) -> Vec<String> {
     bad
 }
 
-fn doc_graph<Ty: EdgeType>(ch: &mut dyn Pick) -> Vec<String> {
+fn doc_graph<Ty: EdgeType + Send + 'static>(ch: &mut dyn Pick) -> Vec<String> {
     let mut bad = vec![];
     let nn = ch.pick("nn", 3);
     let prop_ok = ch.pick("prop", 1) == 0;
@@ -236,7 +267,7 @@ fn doc_graph<Ty: EdgeType>(ch: &mut dyn Pick) -> Vec<String> {
     bad
 }
 
-fn same_stable<Ty: EdgeType>(a: &StableGraph<u8, u8, Ty, u8>, b: &StableGraph<u8, u8, Ty, u8>, what: &str, bad: &mut Vec<String>) {
+fn same_stable<Ty: EdgeType + Send + 'static>(a: &StableGraph<u8, u8, Ty, u8>, b: &StableGraph<u8, u8, Ty, u8>, what: &str, bad: &mut Vec<String>) {
     use petgraph::visit::{EdgeIndexable, NodeIndexable};
     let na: Vec<(usize, u8)> = a.node_indices().map(|x| (x.index(), a[x])).collect();
     let nb: Vec<(usize, u8)> = b.node_indices().map(|x| (x.index(), b[x])).collect();
@@ -253,7 +284,7 @@ fn same_stable<Ty: EdgeType>(a: &StableGraph<u8, u8, Ty, u8>, b: &StableGraph<u8
     let _ = (&a, &b);
 }
 
-fn round_trip<Ty: EdgeType>(ch: &mut dyn Pick) -> Vec<String> {
+fn round_trip<Ty: EdgeType + Send + 'static>(ch: &mut dyn Pick) -> Vec<String> {
     let mut bad = vec![];
     let mut g: StableGraph<u8, u8, Ty, u8> = StableGraph::default();
     let x0 = g.add_node(90);
@@ -328,7 +359,7 @@ fn round_trip<Ty: EdgeType>(ch: &mut dyn Pick) -> Vec<String> {
 const BIN_VALUES: [u8; 9] = [0x00, 0x01, 0x02, 0x03, 0x05, 0x7f, 0x80, 0xfe, 0xff];
 
 /// the valid stream that BinMutate damages: 3 live nodes, vacancies first and in the middle, 2 edges and a vacant edge slot
-fn bin_base<Ty: EdgeType>() -> Vec<u8> {
+fn bin_base<Ty: EdgeType + Send + 'static>() -> Vec<u8> {
     let mut g: StableGraph<u8, u8, Ty, u8> = StableGraph::default();
     let x0 = g.add_node(90);
     let a = g.add_node(10);
@@ -346,7 +377,7 @@ fn bin_base<Ty: EdgeType>() -> Vec<u8> {
 
 /// the concrete part of BinMutate; runs in a child process because damaged length prefixes can make the code under
 /// test abort the process (allocation failure) rather than panic, which must be reported, not suffered
-fn bin_mutate_concrete<Ty: EdgeType>(pos: usize, val: u8, cut: bool) -> Vec<String> {
+fn bin_mutate_concrete<Ty: EdgeType + Send + 'static>(pos: usize, val: u8, cut: bool) -> Vec<String> {
     let mut bad = vec![];
     let mut bytes = bin_base::<Ty>();
     if cut {
@@ -368,19 +399,47 @@ fn bin_mutate_concrete<Ty: EdgeType>(pos: usize, val: u8, cut: bool) -> Vec<Stri
     bad
 }
 
-fn bin_mutate<Ty: EdgeType>(ch: &mut dyn Pick) -> Vec<String> {
+fn bin_mutate<Ty: EdgeType + Send + 'static>(ch: &mut dyn Pick) -> Vec<String> {
     let len = bin_base::<Ty>().len();
     let pos = ch.pick("pos", len - 1);
     let vi = ch.pick("val", BIN_VALUES.len() - 1);
     let cut = ch.pick("cut", 1) == 1;
+    // after three loads that did not come back the remaining ones are not started (10 s each would take hours)
+    static STUCK: std::sync::atomic::AtomicUsize = std::sync::atomic::AtomicUsize::new(0);
+    if STUCK.load(std::sync::atomic::Ordering::SeqCst) >= 3 {
+        return vec!["(not run: three earlier loads of damaged streams did not terminate)".into()];
+    }
     let exe = std::env::current_exe().expect("own path");
-    let out = std::process::Command::new(exe)
+    let child = std::process::Command::new(exe)
         .args(["--child-bin-mutate", if Ty::is_directed() { "di" } else { "un" }, &pos.to_string(), &vi.to_string(), if cut { "1" } else { "0" }])
+        .stdout(std::process::Stdio::piped())
         .stderr(std::process::Stdio::piped())
-        .output()
+        .spawn()
         .expect("child process starts");
+    // a load (plus the consistency suite) that does not finish within 20 s is reported, not waited for
+    let mut child = child;
+    let t0 = std::time::Instant::now();
+    loop {
+        match child.try_wait() {
+            Ok(Some(_)) => break,
+            Ok(None) => {
+                if t0.elapsed().as_secs() >= 20 {
+                    let _ = child.kill();
+                    let _ = child.wait();
+                    STUCK.fetch_add(1, std::sync::atomic::Ordering::SeqCst);
+                    return vec![format!("deserializing the stream with byte {} {} (and using the result) did not terminate within 20 s", pos, if cut { "cut off".to_string() } else { format!("set to {:#04x}", BIN_VALUES[vi]) })];
+                }
+                std::thread::sleep(std::time::Duration::from_millis(2));
+            }
+            Err(e) => return vec![format!("waiting for the child failed: {}", e)],
+        }
+    }
+    let out = child.wait_with_output().expect("child output");
     if out.status.success() {
         let text = String::from_utf8_lossy(&out.stdout).trim().to_string();
+        if text.contains("did not terminate") {
+            STUCK.fetch_add(1, std::sync::atomic::Ordering::SeqCst);
+        }
         if text.is_empty() {
             vec![]
         } else {
@@ -401,7 +460,7 @@ fn child_bin_mutate(args: &[String]) -> ! {
     std::process::exit(0)
 }
 
-fn bin_round_trip<Ty: EdgeType>(ch: &mut dyn Pick) -> Vec<String> {
+fn bin_round_trip<Ty: EdgeType + Send + 'static>(ch: &mut dyn Pick) -> Vec<String> {
     let mut bad = vec![];
     let mut g: StableGraph<u8, u8, Ty, u8> = StableGraph::default();
     let x0 = g.add_node(90);
